@@ -113,10 +113,14 @@ class Driver:
         return out
 
 
+LAST_RESULT = [None]     # the Result a harness was filling when it aborted (its violations are not lost)
+
+
 class Result:
     """what a harness run reports to ./check"""
 
     def __init__(self):
+        LAST_RESULT[0] = self
         self.evaluations = 0
         self.nontrivial = set()       # digests of distinct non-trivial cases
         self.samples = []
